@@ -106,9 +106,11 @@ def handleLoess (ins outs : List J) : Verdict :=
       let n := xs0.length
       let ps := Sample.sortP (xs0.zip ys0)
       let xs := ps.map (·.1); let ys := ps.map (·.2)
-      let exact := span * n
+      -- the code computes ceil(span * float64(n)) with ONE float multiplication of exact operands: its
+      -- result is the double nearest to the exact product, so the window width is determined exactly
+      let prod := roundF64 (span * n)
       let qc (v : Rat) : Nat := let c := v.ceil.toNat; if c ≥ n then n else c
-      let qs : List Nat := (([qc exact, qc (exact * (1 - 4 * eps)), qc (exact * (1 + 4 * eps))]).eraseDups)
+      let qs : List Nat := [qc prod]
       let flags := [("loess-local", loc == 1, "perturbing a y outside the window changed the value"),
                     ("loess-order-independent", ord == 1, "shuffling the input pairs changed the value"),
                     ("loess-inputs-unmodified", unmod == 1, "argument slices changed")]
